@@ -33,6 +33,7 @@ EXPLANATION = (
     "HOLO-1 on every _calc_energy* (holomorphic in the walker). CAP-1: the Cholesky-vector axis of "
     "ham_data['chol'] / ['rot_chol'] is never sliced partially inside an estimator without the "
     "complementary slice. SIB-2 (dependence form) for hand-written restricted energies. "
+    ' SIB-2 (dependence form): every hand-written _calc_energy* / its restricted entry point reads each trial component the overlap of the same class reads (an estimator that ignores part of the trial cannot be the mixed estimator of that trial). The private per-determinant NOCI helpers are judged with their parameters as the calling method passes them (parameter order, names and record packing are free). '
 )
 NOT_DECIDED = (
     "the half-rotated-integral and Wick formulas as formulas (coefficients, exchange vs Coulomb index "
